@@ -88,7 +88,7 @@ func rsJudgeTrace(trace string, startUnix, endUnix int64) rsVerdict {
 			} else {
 				v.warnings++
 			}
-		case d == "upd" || d == "unk" || d == "trunc" || d == "gzbad":
+		case d == "upd" || d == "unk" || d == "trunc" || d == "gzbad" || d == "toodeep":
 			v.warnings++
 		}
 	}
